@@ -85,6 +85,15 @@ func VerifC14Jobs(h *verifh.H) {
 		Sink:     map[string]interface{}{"Type": "DatasetSink", "Name": "dst"},
 		Triggers: []JobTrigger{trig},
 	}
+	switch h.Choice("source", 3) {
+	case 1:
+		// a union of two datasets whose member sources are given without their type (it defaults)
+		_, _ = hub.Dsm.CreateDataset("src2", nil)
+		cfg.Source = map[string]interface{}{"Type": "UnionDatasetSource", "DatasetSources": []interface{}{
+			map[string]interface{}{"Name": "src"}, map[string]interface{}{"Name": "src2"}}}
+	case 2:
+		cfg.Source = map[string]interface{}{"Type": "DatasetSource", "Name": "src", "LatestOnly": true}
+	}
 	h.Assert(sch.AddJob(cfg) == nil, "definition accepted")
 	if h.Choice("withToken", 2) == 1 {
 		h.Assert(hub.Store.StoreObject(server.JobDataIndex, "job-1", &SyncJobState{ID: "job-1", ContinuationToken: "7"}) == nil, "token stored")
